@@ -22,13 +22,14 @@ func (Precompile).IsTransaction
     ensures c05_delegationTotalRewards: methodName == "delegationTotalRewards" ==> result
     ensures exact: result == DisIsTx(methodName)
 
-// RequiredGas (called by vm.runPrecompiledContract with the raw call data, before Run). FINDING AA1: `input[:4]` panics on call data
+// RequiredGas (called by vm.runPrecompiledContract with the raw call data, before Run). (finding AA1, fixed) `input[:4]` panicked on call data
 // shorter than four bytes - nothing at the call site guarantees them
 func (Precompile).RequiredGas
     requires golen: 0 <= len(input) && len(input) <= 9223372036854775807
-    ensures unknown: ret(MethodById, 1, 1) != nil ==> result == 0
-    ensures tx: ret(MethodById, 1, 1) == nil && DisIsTx(ret(MethodById, 1, 0).Name) ==> result == p.KvGasConfig.WriteCostFlat + p.KvGasConfig.WriteCostPerByte * (len(input) - 4)
-    ensures query: ret(MethodById, 1, 1) == nil && !DisIsTx(ret(MethodById, 1, 0).Name) ==> result == p.KvGasConfig.ReadCostFlat + p.KvGasConfig.ReadCostPerByte * (len(input) - 4)
+    ensures short: len(input) < 4 ==> result == 0
+    ensures unknown: len(input) >= 4 && ret(MethodById, 1, 1) != nil ==> result == 0
+    ensures tx: len(input) >= 4 && ret(MethodById, 1, 1) == nil && DisIsTx(ret(MethodById, 1, 0).Name) ==> result == p.KvGasConfig.WriteCostFlat + p.KvGasConfig.WriteCostPerByte * (len(input) - 4)
+    ensures query: len(input) >= 4 && ret(MethodById, 1, 1) == nil && !DisIsTx(ret(MethodById, 1, 0).Name) ==> result == p.KvGasConfig.ReadCostFlat + p.KvGasConfig.ReadCostPerByte * (len(input) - 4)
 
 // every method consumes SDK gas on the meter of the context it is given (a larger frame: nothing to re-verify)
 extend func (Precompile).ClaimRewards
@@ -57,12 +58,11 @@ extend func (Precompile).DelegatorWithdrawAddress
     modifies gasw
 
 // ---- Run. Preconditions: facts of the call chain vm.EVM.Call / CallCode / DelegateCall / StaticCall -> runPrecompiledContract -> Run,
-// of NewPrecompile (keepers set) and of the embedded abi.json. `value`: see FINDING AA2 (RunSetup).
+// of NewPrecompile (keepers set) and of the embedded abi.json. a nil `value` (DELEGATECALL) is handled since the AA2 fix.
 func (Precompile).Run
     requires wf: evm != nil && contract != nil && p.stakingKeeper.Keeper != nil
     requires sdb: isdyn(evm.StateDB, *SDB) ==> dyn(evm.StateDB, *SDB) != nil && ctx_height(dyn(evm.StateDB, *SDB).ctx) >= 0
     requires golen: len(contract.Input) >= 0
-    requires value: len(contract.Input) == 0 ==> contract.value != nil
     requires abi_events: len(p.ABI.Events["ClaimRewards"].Inputs) == 2 && len(p.ABI.Events["SetWithdrawerAddress"].Inputs) == 2 && len(p.ABI.Events["WithdrawDelegatorRewards"].Inputs) == 3 && len(p.ABI.Events["WithdrawValidatorCommission"].Inputs) == 2
     requires abi_plain: p.ABI.Fallback.Type != 1 && p.ABI.Receive.Type != 2
     // abi.json declares exactly the methods the switch knows (OBSERVATION AA3: the switch has no default case)
